@@ -2,6 +2,7 @@ import Nstd.Common.Basic
 import Nstd.Hash.Model
 import Nstd.Hash.PtrModel
 import Nstd.Generated.HashConst
+import Nstd.Generated.HashFn
 /-
   Line protocol of the Hash area (HashMap / HashSet / PoolMap).
 
@@ -13,13 +14,15 @@ import Nstd.Generated.HashConst
     assignSelf t | swapSelf t | appendSelf t | removeSelf t     the object itself as the `other` argument
     origin n                             String-key build: form of the key arguments (owned, spare capacity, attached view, shared, …)
     hashnum w s x                        integral hash overloads: width, signedness, bit pattern
+    hashptr x                            hash(const void*) of the address x
     wb t                                 white-box: capacity, bucket chains, free list, order list as item ids
 
   After every op one line:
      <result> || <table 0> || <table 1> || eq=<t0==t1> <t1==t0> <t0==t0>
   with  <table> = n=<size> e=<isEmpty> it=<k:v,...|-> f=<find(0)>,<find(1)>,... c=<contains bits> fr=<front|-> bk=<back|->
   Everything printed is obtained through `step` (queries are ops of the model).
-  The class constants (items per block, default capacity) come from `Nstd/Generated/HashConst.lean`.
+  The class constants (items per block, default capacity) come from `Nstd/Generated/HashConst.lean`, the hash functions
+  (`hashstr`, `hashnum`, `hashptr`, hash mode 5) from `Nstd/Generated/HashFn.lean`: both translated from the current sources.
   The driver runs BOTH models in lock-step: the chain-list model (`Model.lean`, `step`) and the pointer-level
   model (`PtrModel.lean`, `pstep`); a line on which they differ is printed as `MODEL-MISMATCH …`.
   An op the container does not have / an invalid iterator prints `bad-op` (state unchanged).
@@ -42,6 +45,7 @@ def keyText (k : Nat) : List Nat :=
 /-- `hash(const String&)` of a text, computed through the view model for an owned / literal string (terminated in place)
     and for a view attached inside a larger text (neighbours not NUL); `none` if the two differ -/
 def hashText (t : List Nat) : Option Nat :=
+  let hashView := hashViewWith Nstd.Generated.HashFn.hashStringReads Nstd.Generated.HashFn.hashStringOf
   match hashView ⟨t ++ [0], 0, t.length⟩, hashView ⟨[126] ++ t ++ [126, 126], 1, t.length⟩ with
   | some a, some b => if a = b then some a else none
   | _, _ => none
@@ -188,8 +192,15 @@ def stepLine (d : DState) (ws : List String) : DState × String :=
   | ["hashnum", w, sg, x] =>
     match w.toNat?, sg.toNat?, x.toNat? with
     | some w, some sg, some x =>
-      if (w = 8 ∨ w = 16 ∨ w = 32 ∨ w = 64) ∧ x < 2 ^ w then (d, s!"num {hashInt w (sg != 0) x}") else (d, "bad-op")
+      -- the overload the harness selects by the argument type `int<w>` / `uint<w>`, as translated from Base.hpp
+      match Nstd.Generated.HashFn.overloads.find? (fun o => o.1 == (if sg != 0 then "int" else "uint") ++ toString w) with
+      | some o => if x < 2 ^ w then (d, s!"num {o.2.2.2 x}") else (d, "bad-op")
+      | none => (d, "bad-op")
     | _, _, _ => (d, "bad-op")
+  | ["hashptr", x] =>
+    match x.toNat?, Nstd.Generated.HashFn.overloads.find? (fun o => o.1 == "const void*") with
+    | some x, some o => if x < 2 ^ o.2.1 then (d, s!"num {o.2.2.2 x}") else (d, "bad-op")
+    | _, _ => (d, "bad-op")
   | ["hashstr", x] =>
     match fromHex x with
     | some bs =>
